@@ -1144,6 +1144,36 @@ def check(ctx):
                     seen_holes.setdefault((name, h, hctx, (False, False)), p.cond_text())
                 for (h, hctx, glue, nh) in classify(toks):
                     seen_holes.setdefault((name, h, hctx, glue), p.cond_text())
+    # separators inside loops: a separator printed *after* the item must be withheld on the last pass (`not loop.last`), one printed *before* the
+    # item on the first pass (`not loop.first`); the other guard prints `a b,` instead of `a, b` (a missing and a dangling separator)
+    from tplpaths import expr_text as _tx
+    from srclib import tera_walk as _tw
+    def _prints(n_):
+        return (n_.get("k") == "text" and n_["v"].strip() != "") or n_.get("k") in ("var", "include", "for") or (n_.get("k") == "if" and any(_prints(b_) for c_ in n_["conds"] for b_ in c_["body"]))
+    for tname in sorted(T.reachable_templates()):
+        for node in _tw(T.ast_of(tname) or []):
+            if node.get("k") != "for":
+                continue
+            body = node["body"]
+            for i_, b_ in enumerate(body):
+                if b_.get("k") != "if" or len(b_["conds"]) != 1 or b_.get("else") is not None:
+                    continue
+                ct = _tx(b_["conds"][0]["cond"]).replace(" ", "")
+                if ct not in ("not(loop.last)", "not(loop.first)", "notloop.last", "notloop.first"):
+                    continue
+                if not all(x_.get("k") == "text" for x_ in b_["conds"][0]["body"]):
+                    continue
+                before = any(_prints(x_) for x_ in body[:i_])
+                after = any(_prints(x_) for x_ in body[i_ + 1:])
+                which = "last" if "last" in ct else "first"
+                if before and not after and which != "last":
+                    r1.bad(V(r1.id, tname, "separator-guard-position:trailing-under-not-first:%s" % _tx(node["container"]),
+                             "in `for .. in %s` the separator is printed after the item but guarded by `not loop.first`: the first item gets none and the last one a dangling one" % _tx(node["container"])))
+                elif after and not before and which != "first":
+                    r1.bad(V(r1.id, tname, "separator-guard-position:leading-under-not-last:%s" % _tx(node["container"]),
+                             "in `for .. in %s` the separator is printed before the item but guarded by `not loop.last`" % _tx(node["container"])))
+                elif before != after:
+                    r1.ok("%s: separator of `for .. in %s` guarded by not loop.%s" % (tname, _tx(node["container"]), which))
     r1.samples.append("%d rendered templates, %d consistent control paths" % (len(rendered), n_paths))
     r1.require_floor(40, "template control paths")
     rules.append(r1)
